@@ -8,6 +8,7 @@ NOTES = {
  "C16-3": "missed at first; caught by Trace_LinMap.tla's quiescent Len = reachable entries",
  "C04-3": "missed at first; caught after negative answers got their second lifetime source from the RRSIG expiration as well as the SOA minimum",
  "C04-2": "missed at first; caught after alias chains ending in a (bare) denial were added (Sim_LeaseAnswerNeg.cfg)",
+ "C08-1": "missed at first; caught after the slowns shape (un-glued NS host whose address lookup outlasts the lease, directly below the root) was added to the pipeline tier",
  "C08-2": "missed at first; caught after the pipeline tier got wire-born client queries and background refresh (threshold 90 %) as scenario shapes",
 }
 rows = []
